@@ -411,6 +411,21 @@ func refRecover(hash []byte, R, S *big.Int, recid int64) (common.Address, bool) 
 	return crypto.PubkeyToAddress(*pub.ToECDSA()), true
 }
 
+// senderTwice presents the same transaction object twice to the public API (types.Sender caches the sender
+// in the object): both presentations must give the same answer as the signer's own recovery.
+func senderTwice(sg types.Signer, tx *types.Transaction) (common.Address, error, string) {
+	a0, e0 := sg.Sender(tx)
+	a1, e1 := types.Sender(sg, tx)
+	a2, e2 := types.Sender(sg, tx)
+	switch {
+	case (e0 == nil) != (e1 == nil) || (e0 == nil && a0 != a1):
+		return a1, e1, fmt.Sprintf("types.Sender (first presentation) answers (%s, %v) but Signer.Sender answers (%s, %v)", a1.Hex(), e1, a0.Hex(), e0)
+	case (e1 == nil) != (e2 == nil) || (e1 == nil && a1 != a2):
+		return a2, e2, fmt.Sprintf("the second presentation of the same transaction object answers (%s, %v), the first (%s, %v)", a2.Hex(), e2, a1.Hex(), e1)
+	}
+	return a1, e1, ""
+}
+
 func checkTxs() {
 	to1 := common.BytesToAddress([]byte{0x11})
 	to2 := common.BytesToAddress([]byte{0x22})
@@ -492,8 +507,12 @@ func checkTxs() {
 					r.Distinct("distinct_nontrivial", kind+"|"+m.field+"|"+m.alt)
 					var a common.Address
 					var serr error
-					p, pv := safely(func() { a, serr = s.s.Sender(mt) })
+					incons := ""
+					p, pv := safely(func() { a, serr, incons = senderTwice(s.s, mt) })
 					cs := map[string]interface{}{"kind": kind, "key": k, "field": m.field, "alt": m.alt, "tx": f.String()}
+					if incons != "" {
+						r.Violation("C11|kind="+kind+"|oracle=repeated-presentation", incons, cs)
+					}
 					if p {
 						r.Violation("C11|kind="+kind+"|field="+m.field+"|alt="+m.alt+"|oracle=panic", fmt.Sprintf("Sender panics: %v", pv), cs)
 					} else if serr == nil && a == addrs[k] {
@@ -516,8 +535,12 @@ func checkTxs() {
 							r.Violation("C11|kind="+kind+"|field=chain-id|alt="+o.name+"|oracle=mutation-accepted",
 								fmt.Sprintf("transaction signed for %s is accepted by signer %s (sender %s)", s.name, o.name, a.Hex()), cs0)
 						}
-						// fresh copy (no sender cache)
+						// fresh copy (no sender cache), presented twice through the public API
 						rt, _ := rawTx(bs, V, R, S)
+						if _, _, incons := senderTwice(o.s, rt); incons != "" {
+							r.Violation("C11|kind="+kind+"|field=chain-id|oracle=repeated-presentation", incons, cs0)
+						}
+						rt, _ = rawTx(bs, V, R, S)
 						if a, err := o.s.Sender(rt); err == nil {
 							r.Violation("C11|kind="+kind+"|field=chain-id|alt="+o.name+"|oracle=mutation-accepted",
 								fmt.Sprintf("transaction signed for %s is accepted by signer %s (sender %s)", s.name, o.name, a.Hex()), cs0)
@@ -556,8 +579,12 @@ func checkTxs() {
 							r.Add("evaluations", 1)
 							var a common.Address
 							var serr error
-							p, pv := safely(func() { a, serr = s.s.Sender(mt) })
+							incons := ""
+							p, pv := safely(func() { a, serr, incons = senderTwice(s.s, mt) })
 							cls := fmt.Sprintf("v=%d|r=%d|s=%d", vv-vBase, ri, si)
+							if incons != "" {
+								r.Violation("C11|kind="+kind+"|oracle=repeated-presentation", incons, map[string]interface{}{"kind": kind, "V": vv, "R": rv.Text(16), "S": sv.Text(16)})
+							}
 							r.Distinct("sig_shapes", kind+cls)
 							cs := map[string]interface{}{"kind": kind, "key": k, "V": vv, "R": rv.Text(16), "S": sv.Text(16)}
 							if p {
